@@ -30,10 +30,13 @@ RULE = (
     "slot and arch involvement, whether any package is affected, outcome)."
 )
 ASSUMPTIONS = [
-    "Excl: rlt ranges on a version without revision (a guaranteed-empty range; pkgcore rejects the whole entry as invalid, the statement does not say what an invalid advisory yields)",
-    "Excl: globs on operators other than eq, glob bases ending in a letter / number-less suffix / revision or with leading zeros (component prefix arguable there)",
+    "Excl: the verdict for a <package> entry GlsaDirSet cannot translate (rlt on a version without revision = guaranteed-empty range, glob on a non-eq operator, "
+    "malformed version, unknown operator, missing version text): the statement does not say what an invalid entry yields, so such entries are never judged themselves "
+    "- but the ordinary entries listed before and after them in the same advisory are judged as usual (part P8)",
+    "Excl: glob bases ending in a letter / number-less suffix / -r0 or with leading zeros (component prefix arguable there); a glob base with a revision "
+    "(eq 1.2-r1*) matches exactly the versions whose component list starts with 1, 2, -r1, i.e. 1.2-r1 only (1.2-r10 is a raw-string match, see known finding glob-raw-string-prefix)",
     "Excl: slot='*' attributes, keywords with ~ or - prefixes, empty arch attribute, arch lists mixing * with names",
-    "Excl: malformed XML / unknown operators / missing version text (invalid advisories)",
+    "Excl: malformed XML",
     "Excl: SecurityUpgrades (needs a configured repo stack); find_vulnerable_repo_pkgs is driven with arch=None on a FakeRepo",
     "version comparison reference = verif.ref PMS algorithm (C01); r-ops: equal version ignoring revision, then integer revision comparison (missing = 0)",
 ]
@@ -42,7 +45,10 @@ BOUNDS = {
     "P2: all unordered pairs of vulnerable ranges x 0-1 unaffected x 14 packages; P3: 1 vulnerable x all unordered pairs of unaffected ranges; "
     "P4: grouped iteration over pairs of advisories for one package from a 14-range sub-alphabet; "
     "P6: for each of the 27 (operator, version) ranges, directories holding its slotted and unslotted spelling in both orders "
-    "(two consecutive entries / one entry, as vulnerable / unaffected / one of each). Entries are read 12 per directory by one GlsaDirSet",
+    "(two consecutive entries / one entry, as vulnerable / unaffected / one of each). Entries are read 12 per directory by one GlsaDirSet; "
+    "P7: eq globs with a revision in the base (1.2-r1*, 1-r1*, with/without slot) as vulnerable and as unaffected ranges against versions "
+    "{1.2, 1.2-r1, 1.2-r10, 1.2-r2, 1.2.5, 1.20, 1-r1, 2.0}; P8: advisories of 2-3 <package> entries with one untranslatable entry "
+    "(5 kinds x 3 placements inside the entry) first / in the middle / last, the ordinary entries judged",
     "thorough": "as quick plus P5: all unordered pairs of vulnerable x all unordered pairs of unaffected ranges x 14 packages",
 }
 
@@ -96,9 +102,29 @@ FOREIGN = "cat/other"
 BATCH = len(NAMES)
 
 
-def packages_for(full):
+# P7: eq globs whose base carries a revision; the package versions separate "prefix of the full version" from
+# "prefix of the version without its revision"
+RGLOBS = ("1.2-r1*", "1-r1*")
+PVERSIONS_REV = ("1.2", "1.2-r1", "1.2-r10", "1.2-r2", "1.2.5", "1.20", "1-r1", "2.0")
+# P8: <package> entries GlsaDirSet cannot use (they raise while being translated); they are never judged themselves
+BAD_RANGES = [
+    ("rlt-revisionless", ["rlt", "1.0", ""]),
+    ("glob-on-non-eq", ["ge", "1*", ""]),
+    ("malformed-version", ["eq", "1..0", ""]),
+    ("unknown-operator", ["xx", "1.0", ""]),
+    ("missing-version", ["lt", "", ""]),
+]
+GOOD_ENTRIES = [
+    {"vuln": [["lt", "2.0", ""]], "unaff": [], "arch": None},
+    {"vuln": [["ge", "1.0", ""]], "unaff": [["ge", "2.0", ""]], "arch": None},
+    {"vuln": [["eq", "1.0-r1", "1"]], "unaff": [], "arch": None},
+]
+
+
+def packages_for(full, pvers=None):
     kws = PKEYWORDS if full else PKEYWORDS[:1]
-    return [(v, s, list(k)) for v in PVERSIONS for s in PSLOTS for k in kws]
+    versions = PVERSIONS_REV if pvers == "rev" else PVERSIONS
+    return [(v, s, list(k)) for v in versions for s in PSLOTS for k in kws]
 
 
 # ----------------------------------------------------------------------------------------------------------------
@@ -250,9 +276,50 @@ def same_range_dirs(base):
             yield [{"vuln": [r1], "unaff": [], "arch": None}, {"vuln": [other], "unaff": [r2], "arch": None}]
 
 
+def revision_glob_entries():
+    """P7: each revision glob (with and without slot) as the only vulnerable range, next to a second vulnerable range,
+    with each unaffected range of a small set, and as the unaffected range of each vulnerable range of that set"""
+    others = [["ge", "1.0", ""], ["lt", "2.0", ""], ["eq", "1.2-r1", ""], ["rge", "1.2", ""], ["le", "1.2-r2", "1"], ["gt", "1.2-r1", ""]]
+    out = []
+    for g in RGLOBS:
+        for sl in SLOTS:
+            r = ["eq", g, sl]
+            out.append({"vuln": [r], "unaff": [], "arch": None})
+            for o in others:
+                out.append({"vuln": [r], "unaff": [o], "arch": None})
+                out.append({"vuln": [o], "unaff": [r], "arch": None})
+                out.append({"vuln": [o, r], "unaff": [], "arch": None})
+                out.append({"vuln": [r, o], "unaff": [], "arch": None})
+    for g1, g2 in ((RGLOBS[0], RGLOBS[1]), (RGLOBS[1], RGLOBS[0])):
+        out.append({"vuln": [["eq", g1, ""]], "unaff": [["eq", g2, ""]], "arch": None})
+    return out
+
+
+def unusable_entry_dirs(bi):
+    """P8: advisories with 2-3 <package> entries, one of which cannot be translated (as a vulnerable or as an
+    unaffected range), placed first / in the middle / last; the other entries are ordinary"""
+    kind, bad = BAD_RANGES[bi]
+    bads = [
+        {"vuln": [bad], "unaff": [], "arch": None, "unjudged": kind},
+        {"vuln": [["lt", "2.0", ""], bad], "unaff": [], "arch": None, "unjudged": kind},
+        {"vuln": [["lt", "2.0", ""]], "unaff": [bad], "arch": None, "unjudged": kind},
+    ]
+    for b in bads:
+        for g in GOOD_ENTRIES:
+            yield [b, g]
+            yield [g, b]
+        for g1, g2 in itertools.permutations(GOOD_ENTRIES, 2):
+            yield [b, g1, g2]
+            yield [g1, b, g2]
+            yield [g1, g2, b]
+
+
 def tasks(tier):
     out = []
     nr = len(RANGES)
+    out.append(("P7", tier, 0))
+    for i in range(len(BAD_RANGES)):
+        out.append(("P8", tier, i))
     for i in range(len(BASES)):
         out.append(("P6", tier, i))
     for i in range(nr):
@@ -334,11 +401,11 @@ def evaluate(dirpath, ctx):
     """Re-create the directory described by ctx and evaluate it exactly the way work() does: the same files with the
     same entries in the same order are read by ONE GlsaDirSet (so anything GlsaDirSet remembers between entries is
     reproduced), every entry's restriction is matched against the same package list in the same order.
-    ctx = {"mode": "plain"|"grouped", "full": bool, "files": [[file name, [entry, ...]], ...]}
+    ctx = {"mode": "plain"|"grouped", "full": bool, "files": [[file name, [entry, ...]], ...], optional "pvers": "rev"}
     -> list over entries (of the first file) of list of [pkg, observed_iter|None, observed_repo|None]"""
     files = {fn: ents for fn, ents in ctx["files"]}
     write_files(dirpath, files)
-    pk = packages_for(ctx["full"])
+    pk = packages_for(ctx["full"], ctx.get("pvers"))
     entries = ctx["files"][0][1]
     out = []
     if ctx["mode"] == "grouped":
@@ -383,7 +450,10 @@ def _pick(rows, pkg, how):
 
 
 def _sub_ctx(ctx, keep):
-    return {"mode": ctx["mode"], "full": ctx["full"], "files": [[fn, [ents[i] for i in keep]] for fn, ents in ctx["files"]]}
+    sub = {"mode": ctx["mode"], "full": ctx["full"], "files": [[fn, [ents[i] for i in keep]] for fn, ents in ctx["files"]]}
+    if "pvers" in ctx:
+        sub["pvers"] = ctx["pvers"]
+    return sub
 
 
 def shrink(dirpath, ctx, idx, pkg, how, obs):
@@ -452,6 +522,10 @@ def _run_ctx(dirpath, ctx, part, coll, classes, samples):
     evals = 0
     for idx, rows in enumerate(res):
         e = ctx["files"][0][1][idx]
+        if e.get("unjudged"):
+            k = f"{part}:unusable-entry-{e['unjudged']}:unjudged"
+            classes[k] = classes.get(k, 0) + 1
+            continue
         vec = []
         nbad = 0
         for pkg, o, r in rows:
@@ -468,6 +542,10 @@ def _run_ctx(dirpath, ctx, part, coll, classes, samples):
         if ctx["mode"] == "grouped":
             ks = _kinds(e) | _kinds(ctx["files"][1][1][idx])
             k = f"P4-grouped:{_kind(ks)}:{'some-affected' if any(vec) else 'none-affected'}:{'BAD' if nbad else 'ok'}"
+        elif part == "P8":
+            pos = [i for i, x in enumerate(ctx["files"][0][1]) if x.get("unjudged")][0]
+            rel = "before" if idx < pos else "after"
+            k = f"P8:good-entry-{rel}-unusable-one:{'some-affected' if any(vec) else 'none-affected'}:{'BAD' if nbad else 'ok'}"
         else:
             k = classify(part, e, vec, bool(nbad))
         classes[k] = classes.get(k, 0) + 1
@@ -498,6 +576,17 @@ def contexts(task):
                 f1.append(dict(a, name=NAMES[i]))
                 f2.append(dict(b, name=NAMES[i]))
             yield "P4", {"mode": "grouped", "full": False, "files": [["glsa-200001-01.xml", f1], ["glsa-200001-02.xml", f2]]}
+        return
+    if kind == "P7":
+        ents = revision_glob_entries()
+        for lo in range(0, len(ents), BATCH):
+            batch = [dict(e, name=NAMES[i]) for i, e in enumerate(ents[lo : lo + BATCH])]
+            yield "P7", {"mode": "plain", "full": False, "pvers": "rev", "files": [["glsa-200001-01.xml", batch]]}
+        return
+    if kind == "P8":
+        for ents in unusable_entry_dirs(task[2]):
+            ents = [dict(e, name=NAMES[i]) for i, e in enumerate(ents)]
+            yield "P8", {"mode": "plain", "full": False, "files": [["glsa-200001-01.xml", ents]]}
         return
     if kind == "P6":
         for ents in same_range_dirs(BASES[task[2]]):
